@@ -1319,7 +1319,12 @@ def impl_fresh_run(rep, r):
         table, mode = r.choice([(SVM_SIGS, 0), (RANDOM_SIGS, 1)])
         sig = r.choice(list(table))
         _, cd = creator_calldata(sig, table[sig], r.choice([1, 8, 32, 256]), 2 ** 200, "same")
-        ret = (halmos_cheat_code.handle(None, ex, ByteVec(cd), None)[0] if mode == 0 else hevm_cheat_code.handle(None, ex, ByteVec(cd), None))
+        try:
+            ret = (halmos_cheat_code.handle(None, ex, ByteVec(cd), None)[0] if mode == 0 else hevm_cheat_code.handle(None, ex, ByteVec(cd), None))
+        except Exception as e:  # noqa: BLE001
+            rep.fail("failing-input", f"{sig} raised {type(e).__name__}: {e}", case={"creator": sig, "a1": 8, "a2": 2 ** 200, "counter": ex.cnt, "name": "same"},
+                     sig={"defect": "creator", "sig": sig})
+            return 1
         t = ret.unwrap()
         found = set()
 
@@ -1360,7 +1365,14 @@ def run(rep, tier):
     timing = {}
     for name, fn in (("L1_prank_object", tie_prank_obj), ("L2a_prank_programs", tie_prank_sevm), ("L2b_state", tie_state), ("L1c_creators", tie_creators)):
         t0 = time.time()
-        fn(rep, m, tier, r)
+        try:
+            fn(rep, m, tier, r)
+        except Exception:  # noqa: BLE001 -- a crashing tie is a broken tie, the other ties still run
+            import traceback
+
+            tb = traceback.format_exc()
+            rep.obligation(f"tie {name} ran to completion", False, tb[-1200:])
+            rep.fail("broken-tie", f"tie {name} crashed: {tb[-700:]}", case={"tie": name, "traceback": tb[-2500:]})
         timing[name] = round(time.time() - t0, 1)
     rep.coverage["tie_wall_s"] = timing
     rep.coverage["traces_validated_against_impl"] = rep.evaluations if m is not None else 0
